@@ -62,6 +62,17 @@ theorem dq_impl_partial (s : List Char) (hp : ∀ c ∈ s, plainChar c = true) :
 /-- **Every integer of any magnitude** written in decimal reads back as itself -/
 theorem int_roundtrip (n : Nat) : parseNat (digits n) = n := parseNat_digits n
 
+/-- **integers with an exponent are exact, whatever their size**: `parse_int` on `<n>e<k>` / `<n>E+<k>` (the texts
+`int_num` accepts) gives n·10^k — no float on the way (the library used to go through `float`: repaired, `fad9567`) -/
+theorem int_exponent_exact (n k : Nat) (upper plus : Bool) :
+    parseIntText (digits n ++ (if upper then 'E' else 'e') :: ((if plus then ['+'] else []) ++ digits k)) = n * 10 ^ k :=
+  parseIntText_exponent n k _ (by cases upper <;> decide) plus
+
+theorem int_plain_exact (n : Nat) : parseIntText (digits n) = n := parseIntText_plain n
+
+example : parseIntText "123e45".toList = 123 * 10 ^ 45 ∧ parseIntText "7E+300".toList = 7 * 10 ^ 300 := by
+  constructor <;> decide
+
 /-- a minus sign directly before a number folds into it; `+` disappears (partial: `is_number`
 goes through `float()`, so integers beyond the binary64 range are not folded — known finding) -/
 theorem sign_folds_partial (n : Int) (h : n.natAbs < 2 ^ 1024 - 2 ^ 970) :
